@@ -410,7 +410,7 @@ pub fn run(ctx: &Ctx) {
     ctx.set_rule("directory layouts of 1-6 .rs files at depth 0-4, decoy files below target/ and .git/ directories at the top level and nested, non-.rs files, 0-2 unparsable .rs files; items: commands with 7 attribute spellings (tauri::command / command, bare and with arguments), extra attributes before/after, 4 visibilities, async/sync, 10 shallow return types; decoys: helper fns with 10 look-alike attributes, #[tauri::command] inside impl blocks and inline modules; both modes; evaluation = one generation run (plus the metamorphic re-run without the unparsable files); non-trivial = >=2 .rs files, >=1 command, >=1 decoy; distinct by (rendered layout, mode)");
     ctx.set_exhaustive(false);
     ctx.assume("expected command set is computed from the layout model; return types are shallow so that C05's classes do not interfere");
-    let cases = ctx.tier.pick(1200, 30000);
+    let cases = ctx.tier.pick(1200, 200000);
     ctx.search("c03.layout", cases, 220, |tape, stats| {
         let (l, mode) = random_case(tape);
         check_layout(&l, mode, false, stats)
